@@ -52,6 +52,7 @@ type apiWorld struct {
 	sharedOptS *v5.ApplyOptions // the same for the schedule engine's small inputs (limit 12: one application copies 9 bytes)
 	sharedOpt  *v5.ApplyOptions // ONE options value reused by several calls (a call must not leave anything in it)
 	optSnap    v5.ApplyOptions
+	scribble   bool          // the "caller" overwrites every returned byte slice after reading it
 	keep       *[]keptResult // when set: every returned byte slice is remembered, to see whether a LATER call writes into it
 	calls      []apiCall
 	menu       []int // indices of the calls the history engine uses (the small-input calls are for the schedule engine)
@@ -346,6 +347,14 @@ func (w *apiWorld) outcome(i int) (out string) {
 	}()
 	c := w.calls[i]
 	b, err := c.run(w)
+	if w.scribble && len(b) > 0 && !w.aliasesInput(b) {
+		defer func() {
+			// the result belongs to the caller: the caller overwrites it (after it has been read below)
+			for i := range b {
+				b[i] = 0xAA
+			}
+		}()
+	}
 	if w.keep != nil && len(b) > 0 {
 		*w.keep = append(*w.keep, keptResult{call: c.Name, raw: b, snap: string(b)})
 	}
@@ -363,6 +372,23 @@ func (w *apiWorld) outcome(i int) (out string) {
 		return "ok-but-not-json: " + string(b)
 	}
 	return "ok-value: " + rj.Canon(v)
+}
+
+// aliasesInput: b shares memory with one of the caller's own input buffers (MergePatch hands a
+// non-object patch back as it is) - overwriting it would change the caller's input, not library state.
+func (w *apiWorld) aliasesInput(b []byte) bool {
+	lo := uintptr(unsafe.Pointer(&b[0]))
+	hi := lo + uintptr(len(b))
+	for _, in := range w.bufs {
+		if len(in) == 0 {
+			continue
+		}
+		ilo := uintptr(unsafe.Pointer(&in[0]))
+		if lo < ilo+uintptr(cap(in)) && ilo < hi {
+			return true
+		}
+	}
+	return false
 }
 
 // inputsIntact compares every shared buffer and Patch with its snapshot; on a
